@@ -5,10 +5,12 @@ Driver of C05. Payload: `evPayload` sections joined by ` @ ` — the program, th
 expressions (see go/cmd/harness/c05.go). All sections are evaluated by `Ecal.Ev.eval` one after the
 other in ONE global scope and ONE state. Result:
 
-  `<outcome of the program>;<outcome of probe 1>;…;G <canonical dump of the global scope>;LOG <trace>`
+  `<outcome of the program>;G <dump of the global scope>;LOG <trace>;F <call frames>;<outcome of probe 1> L <its trace>;…;G <dump after the probes>`
 
 with outcome = `OK <canonical value> | ERR <type-hex> | ERRPLAIN | NOPARSE | V ERR <type-hex>`.
-A section that leaves the model makes the whole case `UNSUP …` (not compared), fuel exhausted `HANG`.
+If the PROGRAM leaves the model or shows a value the model does not know, the whole case is `UNSUP …` (not compared);
+a PROBE that shows an unknown value prints `U` for its section, a probe that leaves the model prints `U` for its own
+and every later section (props/C05.py compares section by section and accepts `U`); fuel exhausted: `HANG`.
 `nt=1`: the trace has at least one entry.  Error objects are printed in the canonical form of `c05Canon` (c05.go).
 -/
 namespace Ecal.Drv.C05
@@ -58,22 +60,65 @@ def canonErrObjects (t : String) : String :=
   ((((t.replace "s6572726f72:?error text" "s6572726f72:~E").replace "s64657461696c:?detail text" "s64657461696c:~D").replace
     "s736f75726365:?source name" "s736f75726365:~S").replace "s7472616365:?trace" "s7472616365:~T").replace "?int" "~I"
 
+/-- the call frames of the state in creation order (linked ones: a frame whose construction failed stays
+    parentless and is not reported by the code either): scope name, name of the scope it is linked to, and the names
+    it holds IN INSERTION ORDER — `this`, `super`, the parameters come first (`frame_contents`), locals of the body
+    after them; props/C05.py compares the names the real frame held when the body started with that prefix -/
+def framesText (st : St) : String :=
+  let frames := st.scopes.toList.filter fun s => s.name.startsWith "func: " && s.parent.isSome
+  "|".intercalate (frames.map fun s =>
+    let pn := match s.parent with | some p => (st.scopes.getD p default).name | none => ""
+    hexEnc (strBytes s.name) ++ ">" ++ hexEnc (strBytes pn) ++ "[" ++ ",".intercalate (s.vars.map fun kv => hexEnc (strBytes kv.1)) ++ "]")
+
+def logFrom (st : St) (i : Nat) : String := "|".intercalate (st.log.toList.drop i)
+
+/-- one probe: its section text, or `none` when it leaves the model (`Sig.unsupported`); other fatal signals end
+    the case -/
+def runProbe (g : Nat) (prog : Program) : M (Option String) := do
+  let n0 := (← get).log.size
+  match ← attemptE (runSection g prog) with
+  | .ok t => do pure (some (t ++ " L " ++ logFrom (← get) n0))
+  | .error (.unsupported _) => pure none
+  | .error e => throw e
+
+/-- all probes, one after the other in the same state; after a probe that left the model the state is unknown:
+    that probe and every later section print `U` -/
+def runProbes (g : Nat) : List Program → M (List String × Bool)
+  | [] => pure ([], true)
+  | p :: ps => do
+    match ← runProbe g p with
+    | some t => do
+      let (rest, ok) ← runProbes g ps
+      pure (t :: rest, ok)
+    | none => pure ("U" :: ps.map (fun _ => "U"), false)
+
+/-- a section that shows a value the model does not know prints as `U` (the state is still known) -/
+def maskUnknown (t : String) : String :=
+  let t := canonErrObjects t
+  if t.contains '?' then "U" else t
+
 def runSections (secs : List String) : String :=
   match secs.mapM decodePayload with
   | none => "bad-payload"
-  | some progs =>
-    let m : M (Nat × List String) := do
+  | some [] => "bad-payload"
+  | some (prog :: probes) =>
+    let m : M (List String × Bool) := do
       let g ← newScope "GlobalScope"
-      let outs ← progs.mapM (runSection g)
-      pure (g, outs)
-    let tab := progs.flatMap (·.interp)
-    let (r, st) := m.run.run { interp := tab }
+      let p0 ← runSection g prog
+      let st0 ← get
+      let head := [p0, "G " ++ globalDump st0 g, "LOG " ++ logText st0, "F " ++ framesText st0]
+      let (ps, ok) ← runProbes g probes
+      let st1 ← get
+      pure (head ++ ps ++ [if ok then "G " ++ globalDump st1 g else "U"], st0.log.size ≥ 1)
+    let tab := (prog :: probes).flatMap (·.interp)
+    let (r, _) := m.run.run { interp := tab }
     match r with
     | .error e => errText e
-    | .ok (g, outs) =>
-      let t := canonErrObjects (";".intercalate outs ++ ";G " ++ globalDump st g ++ ";LOG " ++ logText st)
-      if t.contains '?' then "UNSUP result shows a value the model does not know"
-      else t ++ (if st.log.size ≥ 1 then "\tnt=1" else "")
+    | .ok (secs, nt) =>
+      let secs := secs.map maskUnknown
+      -- the program itself (outcome, dump, trace) must be known, otherwise nothing is compared
+      if (secs.take 4).contains "U" then "UNSUP result shows a value the model does not know"
+      else ";".intercalate secs ++ (if nt then "\tnt=1" else "")
 
 def runCase (payload : String) : String :=
   let main := runSections (splitSections true payload)
